@@ -1,17 +1,18 @@
 #!/bin/bash
-# usage: seedtest.sh <seeded-dir> <prop> [more props...]   -- applies patch.diff to /repo, runs quick checks, reverts
+# usage: seedtest.sh <seeded-dir> <prop> [more props...]
+# Runs the quick checks against a scratch checkout of /repo with the seeded patch applied
+# (/repo itself and /verif's own build output are not touched: VERIF_REPO + a scratch copy of /verif).
 d=$1; shift
-cd /repo || exit 2
-if ! git diff --quiet; then echo "repo dirty"; exit 2; fi
-git apply "$d/patch.diff" || { echo "patch does not apply"; exit 2; }
-trap 'git -C /repo checkout -- . ' EXIT
-cd /verif
+SR=/tmp/seed-repo; SV=/tmp/seed-verif
+git -C /repo worktree remove --force $SR >/dev/null 2>&1; rm -rf $SR
+git -C /repo worktree add -f --detach $SR HEAD >/dev/null 2>&1 || { echo "cannot create scratch worktree"; exit 2; }
+( cd $SR && git apply "$d/patch.diff" ) || { echo "patch does not apply"; git -C /repo worktree remove --force $SR; exit 2; }
+mkdir -p $SV; rsync -a --delete --exclude .build --exclude .git --exclude replays --exclude seeded /verif/ $SV/
+mkdir -p $SV/replays/cross
 for p in "$@"; do
-  out=$(VERIF_BUDGET_S=${BUDGET:-60} ./check $p quick 2>&1 | tail -12)
+  out=$(cd $SV && VERIF_REPO=$SR VERIF_BUDGET_S=${BUDGET:-60} ./check $p quick 2>&1 | tail -14)
   rc=$(echo "$out" | grep -c "^VIOLATION property=$p")
   echo "== $p: $( [ $rc -gt 0 ] && echo CAUGHT || echo missed )"
   echo "$out" | grep "^violation:\|^VIOLATION\|HARNESS\|^NOTE" | cut -c1-400
 done
-# evidence files were rewritten by runs on a changed tree: restore them
-git -C /verif checkout -- evidence 2>/dev/null
-find /verif/replays -name '*.json' -newer "$d/patch.diff" -delete 2>/dev/null
+git -C /repo worktree remove --force $SR >/dev/null 2>&1; git -C /repo worktree prune
